@@ -78,7 +78,7 @@ def mark_unknown(w, s, pre_dims=None):
             continue
         fm = w.files.get(path)
         replace = (op == "ds_write" and s["mode"] == "w") or (op == "arr_write" and (s["mode"] in ("w", "w-") or fm is None)) \
-            or op in ("unlim_create", "multi_read")
+            or op in ("unlim_create", "multi_read") or (pre_dims is not None and path not in pre_dims)   # the file did not exist before the step
         if replace or fm is None:
             w.files.pop(path, None)
             F.absorb_unknown(w, path)
